@@ -11,6 +11,7 @@ import (
 	"net/rpc"
 	"os"
 	"path/filepath"
+	"strconv"
 	"strings"
 	"sync"
 	"testing"
@@ -865,5 +866,89 @@ func init() {
 			return ""
 		}
 		return d
+	})
+}
+
+// ---------- static membership: the numbers as they reach the discovery object from the configuration ----------
+// Every member of a static group is configured with its number and the group size - in the configuration struct / yaml,
+// or through the environment (GO_DCP__DCP_GROUP_MEMBERSHIP_TOTALMEMBERS / _MEMBERNUMBER, which win over the file: the
+// usual deployment sets the group size of all replicas in one place). Members that agree on the EFFECTIVE group size and
+// hold distinct numbers partition 0..N-1, whatever source each number came from and whatever the overridden file value was.
+
+type c09Cfg struct {
+	N        int   `json:"n"`
+	T        int   `json:"t"`
+	TotalEnv bool  `json:"total_env"`  // the group size comes from the environment ...
+	FileT    []int `json:"file_total"` // ... and the file says this instead (per member, cyclic; 0 = absent, else a stale size)
+	NumEnv   []int `json:"num_env"`    // per member (cyclic): 1 = the member number comes from the environment (file: absent), 2 = from the environment over a stale file value
+}
+
+func c09ExecCfg(c c09Cfg) (d string) {
+	defer func() {
+		os.Unsetenv("GO_DCP__DCP_GROUP_MEMBERSHIP_TOTALMEMBERS")
+		os.Unsetenv("GO_DCP__DCP_GROUP_MEMBERSHIP_MEMBERNUMBER")
+		if r := recover(); r != nil {
+			d = fmt.Sprintf("N=%d T=%d: panic %v", c.N, c.T, r)
+		}
+	}()
+	chunks := make([][]uint16, c.T)
+	for m := 1; m <= c.T; m++ {
+		os.Unsetenv("GO_DCP__DCP_GROUP_MEMBERSHIP_TOTALMEMBERS")
+		os.Unsetenv("GO_DCP__DCP_GROUP_MEMBERSHIP_MEMBERNUMBER")
+		cfg := &config.Dcp{BucketName: "b"}
+		cfg.Dcp.Group.Name = "g"
+		cfg.Dcp.Group.Membership.Type = membership.StaticMembershipType
+		cfg.Dcp.Group.Membership.TotalMembers = c.T
+		cfg.Dcp.Group.Membership.MemberNumber = m
+		if c.TotalEnv {
+			os.Setenv("GO_DCP__DCP_GROUP_MEMBERSHIP_TOTALMEMBERS", strconv.Itoa(c.T))
+			cfg.Dcp.Group.Membership.TotalMembers = 0
+			if len(c.FileT) > 0 {
+				cfg.Dcp.Group.Membership.TotalMembers = c.FileT[(m-1)%len(c.FileT)]
+			}
+		}
+		if len(c.NumEnv) > 0 {
+			switch c.NumEnv[(m-1)%len(c.NumEnv)] {
+			case 1:
+				os.Setenv("GO_DCP__DCP_GROUP_MEMBERSHIP_MEMBERNUMBER", strconv.Itoa(m))
+				cfg.Dcp.Group.Membership.MemberNumber = 0
+			case 2:
+				os.Setenv("GO_DCP__DCP_GROUP_MEMBERSHIP_MEMBERNUMBER", strconv.Itoa(m))
+				cfg.Dcp.Group.Membership.MemberNumber = 1 + (m % c.T)
+			}
+		}
+		cfg.ApplyDefaults()
+		chunks[m-1] = stream.NewVBucketDiscovery(nil, cfg, c.N, EventBus.New()).Get()
+	}
+	return c09CheckChunks(c.N, c.T, chunks)
+}
+
+func TestC09_StaticConfigSources(t *testing.T) {
+	rapid.Check(t, func(rt *rapid.T) {
+		c := c09Cfg{N: rapid.SampledFrom([]int{64, 128, 1024, 1024}).Draw(rt, "n")}
+		c.T = rapid.OneOf(rapid.IntRange(1, 8), rapid.IntRange(1, c.N)).Draw(rt, "t")
+		c.TotalEnv = rapid.Bool().Draw(rt, "totalenv")
+		if c.TotalEnv {
+			c.FileT = rapid.SliceOfN(rapid.OneOf(rapid.Just(0), rapid.IntRange(1, c.T+2)), 0, 4).Draw(rt, "filet")
+		}
+		c.NumEnv = rapid.SliceOfN(rapid.IntRange(0, 2), 0, 4).Draw(rt, "numenv")
+		if d := c09ExecCfg(c); d != "" {
+			violation(rt, "C09", "c09cfg", c, "%s", d)
+		}
+		labs := []string{"static_config_cases"}
+		if c.TotalEnv {
+			labs = append(labs, "group_size_from_environment")
+		}
+		record("C09", c, c.T >= 2 && c.TotalEnv, labs...)
+	})
+}
+
+func init() {
+	registerReplay("c09cfg", func(raw json.RawMessage) string {
+		var c c09Cfg
+		if err := json.Unmarshal(raw, &c); err != nil {
+			return err.Error()
+		}
+		return c09ExecCfg(c)
 	})
 }
